@@ -32,14 +32,8 @@ theorem src_guards_strict :
     (∀ hard st, (textMode hard st).sizeOK) ∧ (∀ hard, (richMode hard).sizeOK) := by
   refine ⟨fun hard st => ?_, fun hard => ?_⟩ <;> cases hard <;> exact ⟨rfl, by simp only [textMode, richMode]; decide⟩
 
-open VaxisModel.Gen.SurfaceFacts in
-/-- The shape-fixed facts of textfield.go the model transcribes (L0,L1,… = the locals in order of declaration:
-renaming a variable changes nothing).  Round 4: NewSurface, WriteCell, render and Center.Draw are no longer pinned here —
-their regenerated bodies are EXECUTED and proved equal to the model in `Props/C14Body.lean` (`*_body_eq_model`). -/
-theorem facts_surface :
-    textFieldFacts = ["if ((P0.Max.Width==0)||(P0.Max.Height==0))", "vxfw.NewSurface(P0.Max.Width,1,R)",
-      "L0.WriteCell(L2,0,L7)", "L2+=uint16(L6.Width)", "L1+=1"] := by
-  decide +kernel
+/-! Round 4: the string pins of NewSurface, WriteCell, render, Center.Draw and TextField.Draw that stood here (`facts_surface`) are
+replaced by the executed bodies of `Props/C14Body.lean` (`*_body_eq_model`). -/
 
 /-- The extractor recognised every shape it looks for in the vxfw sources. -/
 theorem facts_extractor_clean : VaxisModel.Gen.SurfaceFacts.extractErrors = [] := by decide
